@@ -295,3 +295,70 @@ def falsify_views(est, L, P):
   if np.linalg.eigvalsh((M + M.T) / 2).min() < -1e-10 * nM:
     return ('M not PSD', float(np.linalg.eigvalsh((M + M.T) / 2).min()))
   return None
+
+
+class _SubArray(np.ndarray):
+  """an ndarray subclass (as pandas / astropy / user code hand them over)"""
+
+
+class _ArrayWrapper:
+  """an object that exposes its buffer through __array__ (no copy)"""
+  def __init__(self, a):
+    self.a = a
+  def __array__(self, dtype=None, copy=None):
+    return self.a if dtype is None else self.a.astype(dtype)
+  def __len__(self):
+    return len(self.a)
+
+
+def container_lane(ctx, n, sub):
+  """pairs held in legal array-likes that validation turns into a NEW ndarray object over the SAME memory (memory-mapped file,
+  masked array, ndarray subclass, __array__ wrapper): the distances are those of the plain array, a second call on the same
+  collection gives the same values (d(x, x') is a function of the points), scores are their negation, and the caller's memory is
+  left as it was"""
+  import os, warnings
+  from metric_learn import Covariance
+  rng = ctx.rng
+  for rep in range(n):
+    d = int(rng.integers(2, 6))
+    k = int(rng.integers(1, d + 1))
+    L = rng.integers(-8, 9, size=(k, d)) / 4.0
+    with warnings.catch_warnings():
+      warnings.simplefilter('ignore')
+      est = Covariance().fit(np.vstack([np.eye(d), -np.eye(d), np.ones((1, d))]))
+    est.components_ = L
+    P = rng.integers(-16, 17, size=(6, 2, d)) / 2.0
+    P[0, 1] = P[0, 0]                                     # a pair (x, x)
+    ref = np.sqrt((((P[:, 0] - P[:, 1]).dot(L.T)) ** 2).sum(axis=1))
+    mm_path = os.path.join(ctx.rundir, 'pairs_%d.mm' % rep)
+    mm = np.memmap(mm_path, dtype=float, mode='w+', shape=P.shape)
+    mm[:] = P
+    forms = [('numpy.memmap', mm, lambda: np.array(mm)), ('masked array', np.ma.masked_array(P.copy()), None),
+             ('ndarray subclass', P.copy().view(_SubArray), None), ('__array__ wrapper', _ArrayWrapper(P.copy()), None)]
+    for nm, obj, _ in forms:
+      ctx.count(sub, 1)
+      ctx.hist('container', nm)
+      raw = (lambda o: np.array(o.a) if isinstance(o, _ArrayWrapper) else np.array(np.ma.getdata(o)))
+      inp = dict(L=L.tolist(), pairs=P.tolist(), container=nm)
+      try:
+        with warnings.catch_warnings():
+          warnings.simplefilter('ignore')
+          d1 = np.asarray(est.pair_distance(obj))
+          d2 = np.asarray(est.pair_distance(obj))
+          s3 = np.asarray(est.pair_score(obj))
+      except Exception as ex:
+        ctx.fail_input(sub, 'pair_distance on pairs held in a %s raises %s' % (nm, type(ex).__name__), inp, observed=str(ex)[:200])
+        continue
+      tol = 1e-12 * (1 + np.abs(ref).max())
+      if np.abs(d1 - ref).max() > tol:
+        ctx.fail_input(sub, 'pair_distance on pairs held in a %s differs from the distance of the same numbers' % nm, inp, observed=d1.tolist(), expected=ref.tolist())
+      elif np.abs(d2 - ref).max() > tol or np.abs(s3 + ref).max() > tol:
+        ctx.fail_input(sub, 'a second call on the same %s gives other distances (d(x, x) = %r for the pair (x, x); pair_score is not -pair_distance)' % (nm, float(d2[0])),
+                       inp, observed=dict(second_call=d2.tolist(), pair_score=s3.tolist()), expected=ref.tolist())
+      elif not np.array_equal(raw(obj), P):
+        ctx.fail_input(sub, 'pair_distance modified the pairs of the caller (held in a %s)' % nm, inp, observed=raw(obj).tolist(), expected=P.tolist())
+    del mm
+    try:
+      os.remove(mm_path)
+    except OSError:
+      pass
